@@ -71,7 +71,7 @@ package boltz
 //@ func (*fkDeleteCascadeConstraint).ProcessBeforeDelete
 //@   props C04
 //@   nosafety
-//@   modifies *, ocCnt, ocFn, ocRecv, cxN, cxWho, cxPhase, cxCtx, cxPersist
+//@   modifies *, ocCnt, ocFn, ocRecv, cxN, cxWho, cxPhase, cxCtx, cxPersist, edDone
 //@   callpre[predicate-is-symbol-in-id-as-a-value] PostProcess@1: istype(*arg1, *ast.InArrayExprNode) && istype(as(*arg1, *ast.InArrayExprNode).left, *ast.UntypedSymbolNode) && as(as(*arg1, *ast.InArrayExprNode).left, *ast.UntypedSymbolNode).symbol == esName(index.symbol) && istype(as(*arg1, *ast.InArrayExprNode).right, *ast.StringArrayNode) && len(as(as(*arg1, *ast.InArrayExprNode).right, *ast.StringArrayNode).values) == 1 && istype(as(as(*arg1, *ast.InArrayExprNode).right, *ast.StringArrayNode).values[0], *ast.StringConstNode) && as(as(as(*arg1, *ast.InArrayExprNode).right, *ast.StringArrayNode).values[0], *ast.StringConstNode).value == str(ctx.RowId)
 //@   callpre[typed-against-the-referencing-store] PostProcess@1: ref(arg0) == symStoreOf(index.symbol)
 //@   callpre[cascade-deletes-through-the-referencing-store-in-this-context] DeleteById@1: ref(recv) == symStoreOf(index.symbol) && arg0 == ctx.Ctx
